@@ -1,6 +1,7 @@
 ---------------------------- MODULE NfdRegTrace ----------------------------
 (* Trace validation for C17. A trace is what the harness did to one application instance
-   (Connect / Call / Tick / Pass (1 ms passes) / FwdReply / Disconnect, each with the tick bit d)
+   (Connect / Call / Tick / Pass (1 ms passes) / FwdReply / Disconnect / Cancel (task.cancel() on the task of a
+   call in progress), each with the tick bit d)
    and, after the loop went quiescent, the projection it observed:
        post.cmds = command Interests found on the wire so far, decoded by the strict reader
        post.res  = return value of every call ("T" | "F" | "exc" | "none")
@@ -22,7 +23,8 @@ TInit == /\ tid \in 1..Len(Traces)
          /\ Init
          /\ TLCSet(tid, 1)
 
-ResStr(r) == IF r.k = "none" THEN "none" ELSE IF r.k = "raised" THEN "exc" ELSE IF r.v THEN "T" ELSE "F"
+ResStr(r) == IF r.k = "none" THEN "none" ELSE IF r.k = "raised" THEN "exc" ELSE IF r.k = "cancelled" THEN "canc"
+             ELSE IF r.v THEN "T" ELSE "F"
 
 PostOk(p) ==
   /\ Len(cmds) = Len(p.cmds)
@@ -41,7 +43,13 @@ Stim(e) ==
     [] e.a = "Tick" -> Tick
     [] e.a = "Pass" -> IF \E c \in Calls : pc[c] = "sleeping" THEN \E c \in Calls : Wake(c, e.d, e.adv) ELSE PassIdle(e.d, e.adv)
     [] e.a = "Declare" -> DeclareRoute(e.r, e.d)
-    [] e.a = "FwdReply" -> e.i \in 1..Len(cmds) /\ FwdReply(cmds[e.i].call, e.k, e.b, e.d)
+    \* the harness answers the e.i-th command on the wire; whether its call still waits for the answer is for TLC to
+    \* find out: the answer to a command whose call was cancelled is a LateReply
+    [] e.a = "FwdReply" -> /\ e.i \in 1..Len(cmds)
+                           /\ IF pc[cmds[e.i].call] = "cancelled" THEN e.k \in DataKinds \cup {"nack"} /\ LateReply(cmds[e.i].call, e.d)
+                                                                  ELSE FwdReply(cmds[e.i].call, e.k, e.b, e.d)
+    \* where the call is suspended is not observed: one of CancelWaiting / CancelSleeping / CancelSent explains it
+    [] e.a = "Cancel" -> CancelCall(e.c, e.d)
     [] e.a = "Connect" -> Connect(e.d)
     [] e.a = "Disconnect" -> Disconnect
     [] OTHER -> FALSE
